@@ -26,7 +26,7 @@ def gen(rng, index, tier):
         raw = [[list(b) for b in raw[0]] for _ in range(rng.randint(1, 4))]
         meta["family"] = "identical"
     else:
-        raw, meta = lib.gen_dataset(rng, nmax=nmax, mmax=5, family=fam)
+        raw, meta = lib.gen_dataset(rng, nmax=nmax, mmax=5, family=fam, big=0.02, big_nmax=16)
         if rng.random() < 0.6 and len(lib.dataset_elems(raw)) >= 3:
             # make sure an incomplete ranking with a tie is present (the counts of _where_should_it_be then mix
             # "tied", "only one ranked" and "none ranked")
